@@ -23,9 +23,18 @@ from typing import Any, Dict, List
 from . import pool, tlc, tracecheck
 
 
-def _vectors(module: str, cfg: str) -> List[Dict[str, Any]]:
-    res = tlc.run_tlc(module, cfg, workers=8)
-    return res.vectors
+def _vectors(module: str, cfg: str, keep=None, limit: int = 0) -> List[Dict[str, Any]]:
+    """vectors printed by TLC; with `keep`/`limit` only the first `limit` vectors satisfying `keep` are retained"""
+    if keep is None:
+        return tlc.run_tlc(module, cfg, workers=8).vectors
+    out: List[Dict[str, Any]] = []
+
+    def sink(v, _n):
+        if len(out) < limit and keep(v):
+            out.append(v)
+
+    tlc.run_tlc(module, cfg, workers=8, sink=sink)
+    return out
 
 
 def check_vectors(report: List[str]) -> bool:
@@ -69,6 +78,35 @@ def check_vectors(report: List[str]) -> bool:
         caught += 1 if c14.compare(w, o).mismatches else 0
     report.append("C14 vectors: %d clean, %d rejected clean, %d/%d corrupted rejected" % (len(sample), clean, caught, len(sample)))
     ok &= clean == 0 and caught == len(sample)
+    # MultiIndex component: claim that a coerced level keeps its original dtype
+    from .props import component
+
+    sample = _vectors("MultiIndex", "mc/MC_MultiIndex_quick.cfg", limit=40,
+                      keep=lambda v: v.get("kind") == "multiindex" and v["expect"]["kind"] == "ok" and v["expect"]["returned"] != v["levels"])
+    obs = pool.replay(sample, "vf.obs_multiindex", "observe_multiindex", nproc=4)
+    clean = sum(1 for v, o in zip(sample, obs) if component.compare_mi_c03(v, o).mismatches)
+    caught = 0
+    for v, o in zip(sample, obs):
+        w = copy.deepcopy(v)
+        w["expect"]["returned"] = w["levels"]
+        caught += 1 if component.compare_mi_c03(w, o).mismatches else 0
+    report.append("MultiIndex vectors: %d clean, %d rejected clean, %d/%d corrupted rejected" % (len(sample), clean, caught, len(sample)))
+    ok &= clean == 0 and caught == len(sample) and len(sample) > 0
+    # FrameRows: claim that one more row survives drop_invalid_rows
+    from .props import c11
+
+    vecs = _vectors("FrameRows", "mc/MC_FrameRows_quick.cfg", limit=40,
+                    keep=lambda v: v.get("kind") == "rows" and v["mode"] == "drop" and not v.get("devs")
+                    and len(v["expect"]["kept"]) < len(v["a"]))
+    obs = pool.replay(vecs, "vf.obs_rows", "observe_rows", nproc=4)
+    clean = sum(1 for v, o in zip(vecs, obs) if c11.compare_rows(v, o).mismatches)
+    caught = 0
+    for v, o in zip(vecs, obs):
+        w = copy.deepcopy(v)
+        w["expect"]["kept"] = list(range(1, len(w["a"]) + 1))
+        caught += 1 if c11.compare_rows(w, o).mismatches else 0
+    report.append("FrameRows vectors: %d clean, %d rejected clean, %d/%d corrupted rejected" % (len(vecs), clean, caught, len(vecs)))
+    ok &= clean == 0 and caught == len(vecs) and len(vecs) > 0
     return ok
 
 
